@@ -732,3 +732,34 @@ impl Server for A2sServer {
         true
     }
 }
+
+
+/// The per-game response a Valve game module must derive from a protocol response: written from the field
+/// documentation of `valve::game::Response` (every field is the equally named / documented field of the protocol
+/// response; players and rules are all of those gathered, none when the section is absent), independently of the
+/// library's own conversion.
+pub fn project_game(resp: &gamedig::protocols::valve::Response) -> gamedig::protocols::valve::game::Response {
+    use gamedig::protocols::valve::game;
+    let x = resp.info.extra_data.as_ref();
+    game::Response {
+        protocol: resp.info.protocol_version,
+        name: resp.info.name.clone(),
+        map: resp.info.map.clone(),
+        game: resp.info.game_mode.clone(),
+        appid: resp.info.appid,
+        players_online: resp.info.players_online,
+        players_details: resp.players.as_ref().map(|ps| ps.iter().map(|p| game::Player { name: p.name.clone(), score: p.score, duration: p.duration }).collect()).unwrap_or_default(),
+        players_maximum: resp.info.players_maximum,
+        players_bots: resp.info.players_bots,
+        server_type: resp.info.server_type.clone(),
+        has_password: resp.info.has_password,
+        vac_secured: resp.info.vac_secured,
+        version: resp.info.game_version.clone(),
+        port: x.and_then(|x| x.port),
+        steam_id: x.and_then(|x| x.steam_id),
+        tv_port: x.and_then(|x| x.tv_port),
+        tv_name: x.and_then(|x| x.tv_name.clone()),
+        keywords: x.and_then(|x| x.keywords.clone()),
+        rules: resp.rules.clone().unwrap_or_default(),
+    }
+}
